@@ -38,7 +38,26 @@ def main():
             print(o)
             return 2
         env = dict(os.environ, PYTHONPATH=wt, PYTHONDONTWRITEBYTECODE='1', OMP_NUM_THREADS='2', OPENBLAS_NUM_THREADS='2')
-        if os.path.exists(equiv):
+        # the demos of the sub-agents insist on their own scratch worktree (<...>/out/<k>/equiv.py lives inside it): the
+        # equivalence is re-run there (apply, run, undo); otherwise in the fresh worktree
+        home = os.path.dirname(os.path.dirname(d))
+        own = os.path.isdir(os.path.join(home, 'pytenet')) and os.path.isdir(os.path.join(home, '.git')) or \
+            os.path.isfile(os.path.join(home, '.git'))
+        if os.path.exists(equiv) and own:
+            envh = dict(os.environ, PYTHONDONTWRITEBYTECODE='1', OMP_NUM_THREADS='2', OPENBLAS_NUM_THREADS='2')
+            sh(['git', '-C', home, 'checkout', '--', 'pytenet'])
+            rc0, o0 = sh([PY, equiv], cwd=home, env=envh)
+            rca, oa = sh(['git', '-C', home, 'apply', patch])
+            rc1, o1 = sh([PY, equiv], cwd=home, env=envh)
+            sh(['git', '-C', home, 'checkout', '--', 'pytenet'])
+            sh(['git', '-C', home, 'clean', '-fdq', 'pytenet'])
+            import re
+            last = lambda o: re.findall(r'\b[0-9a-f]{32,}\b', o)[-3:] or [l for l in o.strip().splitlines() if l.strip()][-1:]
+            out['equiv_without'] = (rc0, last(o0))
+            out['equiv_with'] = (rc1, last(o1))
+            out['equivalent'] = rca == 0 and rc0 == 0 and rc1 == 0 and last(o0) == last(o1)
+            equiv = None
+        if equiv and os.path.exists(equiv):
             rc0, o0 = sh([PY, equiv], cwd=wt, env=env)
             out['equiv_without'] = (rc0, o0.strip().splitlines()[-1:] if o0.strip() else [])
         rc, o = sh(['git', '-C', wt, 'apply', patch])
@@ -48,7 +67,7 @@ def main():
             return 2
         rc, o = sh([PY, '-m', 'compileall', '-q', os.path.join(wt, 'pytenet')], env=env)
         out['compiles'] = rc == 0
-        if os.path.exists(equiv):
+        if equiv and os.path.exists(equiv):
             rc1, o1 = sh([PY, equiv], cwd=wt, env=env)
             out['equiv_with'] = (rc1, o1.strip().splitlines()[-1:] if o1.strip() else [])
             out['equivalent'] = out['equiv_without'] == out['equiv_with'] and rc1 == 0
